@@ -66,3 +66,140 @@ def seq_update(xs, i, x):
 
 def is_node(n):
     return isinstance(n, N)
+
+
+# ---- native scalar-union values (PV): python values themselves; a node is an
+# abstract N; anything else is "other"
+
+class Other:
+    """a python value outside Union[ScalarType, yaml.Node]"""
+    def __init__(self, what=None):
+        self.what = what
+
+    def __repr__(self):
+        return 'Other(%r)' % (self.what,)
+
+
+def pv_is_str(v):
+    return isinstance(v, str)
+
+
+def pv_is_bool(v):
+    return isinstance(v, bool)
+
+
+def pv_is_int(v):
+    return isinstance(v, int) and not isinstance(v, bool)
+
+
+def pv_is_float(v):
+    return isinstance(v, float)
+
+
+def pv_is_none(v):
+    return v is None
+
+
+def pv_is_node(v):
+    return isinstance(v, N)
+
+
+def pv_is_other(v):
+    return not (v is None or isinstance(v, (str, bool, int, float, N)))
+
+
+def pv_str(v):
+    return v
+
+
+def pv_bool(v):
+    return v
+
+
+def pv_int(v):
+    return v
+
+
+def pv_float(v):
+    return v
+
+
+def pv_node(v):
+    return v
+
+
+def mk_pv_str(v):
+    return v
+
+
+def mk_pv_int(v):
+    return v
+
+
+def mk_pv_bool(v):
+    return v
+
+
+def mk_pv_float(v):
+    return v
+
+
+def mk_pv_none():
+    return None
+
+
+def pv(v):
+    return v
+
+
+def str_of_int(i):
+    return str(i)
+
+
+def str_of_float(f):
+    return str(f)
+
+
+def float_of_int(i):
+    return float(i)
+
+
+def lower(s):
+    return s.lower()
+
+
+def markstr(m):
+    return str(m)
+
+
+# ---- type terms, natively: tagged tuples
+
+class TyT(tuple):
+    def __repr__(self):
+        return 'Ty' + tuple.__repr__(self)
+
+
+T_STR, T_INT, T_FLOAT, T_BOOL = TyT(('Str',)), TyT(('Int',)), TyT(('Float',)), TyT(('Bool',))
+T_BOOLFIX, T_NONE, T_NONETYPE = TyT(('BoolFix',)), TyT(('None',)), TyT(('NoneType',))
+T_DATE, T_PATH, T_ANY, T_ANYSENT = TyT(('Date',)), TyT(('Path',)), TyT(('Any',)), TyT(('AnySent',))
+T_PYLIST, T_PYDICT = TyT(('PyList',)), TyT(('PyDict',))
+
+
+def T_LIST(e):
+    return TyT(('List', e))
+
+
+def T_DICT(k, v):
+    return TyT(('Dict', k, v))
+
+
+def T_UNION(ms):
+    return TyT(('Union', tuple(ms)))
+
+
+def T_CLASS(cid):
+    return TyT(('Class', cid))
+
+
+def T_OTHER(oid):
+    return TyT(('Other', oid))
